@@ -20,6 +20,7 @@
   Bytes used in the examples: 72 = 'H' (head), 82 = 'R' (reply head), payload bytes 1 … 9.
 -/
 import FwdVerif.Lemmas.C03
+import FwdVerif.Lemmas.C03Indep
 
 namespace FwdVerif
 namespace C03
@@ -450,6 +451,46 @@ example : accept ⟨⟨4, 4, true, true, true⟩, ⟨3, 3, true, false, false⟩
 /-- an observation with a lost byte is rejected -/
 example : accept ⟨⟨4, 3, true, true, true⟩, ⟨3, 3, true, true, true⟩, true, true⟩ = false := by
   decide
+
+/-! ## H. The two directions share nothing -/
+
+/-- `exSteps` with other bytes in the target's writes — in fact the very bytes the client sends -/
+def exStepsRecarried : List Step :=
+  [.clientWrite [72, 72, 1, 2, 3], .readHead 2, .targetWrite [82, 82, 1, 2], .replyRead 1, .replyRead 1,
+   .connected, .drain, .copy .down 2, .clientWrite [4], .fin .up, .copy .up 2, .eof .up,
+   .targetWrite [3], .copy .down 1, .fin .down, .eof .down]
+
+/-- What one direction delivers does not depend on what the other direction carries.  Take any
+    accepted schedule and replace the bytes of every write of the source endpoint of direction `d`
+    by any other bytes, as many (`RecarryAll d`): the machine accepts the new schedule step for step,
+    the *opposite* pipe ends up identical — what its source wrote, what was delivered, what is held,
+    every flag —, the pipe of `d` has delivered exactly as many bytes (which bytes:
+    `c03_up_delivered_prefix` / `c03_down_delivered_prefix_partial` of the new run), and phase and
+    socket closure are the same.  So no byte of one stream can turn up in, displace or reorder the
+    other: the model's two pipes share no state.  In the code this is the assumption that the two
+    `copier`s started by `bicopy` have nothing in common — each takes its *own* buffer from
+    `copyBufPool`; `io.CopyBuffer` only uses that buffer when neither end has a
+    `ReadFrom`/`WriteTo` fast path, which is when sharing it would show (scenario: configurations
+    with a TLS or rate-limited listener and a TLS / wrapped far leg, both endpoints streaming
+    different pseudo-random payloads at once). -/
+theorem c03_directions_independent {c : Cfg} {d : Dir} {steps steps' : List Step} {s : State}
+    (h : run c steps = some s) (hr : RecarryAll d steps steps') :
+    ∃ s', run c steps' = some s' ∧ s'.pipe d.other = s.pipe d.other ∧
+      (s'.pipe d).delivered.length = (s.pipe d).delivered.length ∧
+      (s'.pipe d).eof = (s.pipe d).eof ∧ s'.phase = s.phase ∧
+      s'.closedC = s.closedC ∧ s'.closedT = s.closedT := by
+  obtain ⟨s', hrun, hsim⟩ := sim_runFrom hr (sim_refl d init) h
+  exact ⟨s', hrun, hsim.other, hsim.shape.delivered, hsim.shape.eof, hsim.phase, hsim.closedC,
+    hsim.closedT⟩
+
+example : RecarryAll .down exSteps exStepsRecarried := by
+  repeat' constructor
+
+/-- the target sends the client's own bytes instead of `7 8 9`: the client → target pipe is the same,
+    the client receives what the target now sent -/
+example : ∃ s s', run exCfg exSteps = some s ∧ run exCfg exStepsRecarried = some s' ∧
+    s'.up = s.up ∧ s.up.delivered = [1, 2, 3, 4] ∧ s.down.delivered = [7, 8, 9] ∧
+    s'.down.delivered = [1, 2, 3] := ⟨_, _, rfl, rfl, by decide⟩
 
 end C03
 end FwdVerif
